@@ -10,6 +10,7 @@ import (
 	"math/rand"
 	"runtime/metrics"
 
+	"github.com/golang/geo/r3"
 	"github.com/golang/geo/s1"
 	"github.com/golang/geo/s2"
 
@@ -29,7 +30,7 @@ const (
 func Run(m *mon.M) {
 	m.Rule = "byte strings: valid encodings of every type and format version (points, caps, rects, cell ids, cells, cell unions, polylines, loops, polygons lossless v1 and compressed v4), then truncated at every offset, bit-flipped, count/length fields rewritten to {0,1,2,1000,1e5,limit+1,2^31-1,2^31,2^32-1,2^63,2^64-1}, varints rewritten at random offsets, spliced and purely random; an input is non-trivial and distinct when its bytes are new AND it is not accepted unchanged (i.e. it was mutated)"
 	m.Assumptions = []string{"each input is decoded in a child process (RLIMIT_AS 8 GiB, RLIMIT_CPU 900 s per batch of inputs) that journals the input index before the call; in-process panics are recovered and attributed to the innermost library frame; allocation per call from runtime/metrics"}
-	total := int64(m.N(200000, 20000000))
+	total := int64(m.N(200000, 8000000))
 	if st, idx, ok := m.ReplayIndex(); ok {
 		if st != stream {
 			return
@@ -42,6 +43,7 @@ func Run(m *mon.M) {
 	m.Require("inputs.rejected", 20000)
 	m.Require("inputs.over_limit_count", 2000)
 	m.Require("inputs.used_after_decode", 2000)
+	m.Require("inputs.decoded_into_used_receiver", 5000)
 }
 
 func runChildren(m *mon.M, lo, hi int64, par int) {
@@ -78,8 +80,75 @@ func enc(f func(*bytes.Buffer) error) []byte {
 	return b.Bytes()
 }
 
+// foreignLossless writes the lossless (version 1) polygon format by hand, as another implementation would:
+// loops with explicit origin-inside flags, depths and bounds. This reaches encodings the library's own
+// Encode never emits (e.g. the full or the empty polygon in the lossless format).
+func foreignLossless(loops [][]s2.Point, originInside []bool, depth []int32, hasHoles bool, bound s2.Rect) []byte {
+	var b bytes.Buffer
+	w := func(v any) { binary.Write(&b, binary.LittleEndian, v) }
+	rect := func(rc s2.Rect) { w(int8(1)); w(rc.Lat.Lo); w(rc.Lat.Hi); w(rc.Lng.Lo); w(rc.Lng.Hi) }
+	w(int8(1))
+	w(true)
+	w(hasHoles)
+	w(uint32(len(loops)))
+	for i, l := range loops {
+		w(int8(1))
+		w(uint32(len(l)))
+		for _, v := range l {
+			w(v.X)
+			w(v.Y)
+			w(v.Z)
+		}
+		w(originInside[i])
+		w(depth[i])
+		rect(s2.LoopFromPoints(append([]s2.Point(nil), l...)).RectBound())
+	}
+	rect(bound)
+	return b.Bytes()
+}
+
+// manyLoopPolygon: 13..24 disjoint small loops (chain lookups switch data structure above 12 loops).
+func manyLoopPolygon(r *rand.Rand, snapped bool) *s2.Polygon {
+	ls := gen.Islands(r, gen.RandCenter(r), gen.LogUniform(r, 1e-2, 0.8), 13+r.Intn(12))
+	var loops []*s2.Loop
+	for _, l := range ls {
+		if snapped {
+			if sv, ok := gen.SnapToLevel(l, 30); ok {
+				l = sv
+			}
+		}
+		loops = append(loops, s2.LoopFromPoints(append([]s2.Point(nil), l...)))
+	}
+	return s2.PolygonFromLoops(loops)
+}
+
 func validEncoding(r *rand.Rand, kind string) []byte {
 	pt := gen.Uniform(r)
+	if kind == "Loop" && r.Intn(8) == 0 {
+		l := s2.FullLoop()
+		if r.Intn(2) == 0 {
+			l = s2.EmptyLoop()
+		}
+		return enc(func(b *bytes.Buffer) error { return l.Encode(b) })
+	}
+	if kind == "PolygonLossless" && r.Intn(5) == 0 {
+		full, empty := s2.Point{Vector: r3.Vector{Z: -1}}, s2.Point{Vector: r3.Vector{Z: 1}}
+		switch r.Intn(4) {
+		case 0:
+			return foreignLossless([][]s2.Point{{full}}, []bool{true}, []int32{0}, false, s2.FullRect())
+		case 1:
+			return foreignLossless([][]s2.Point{{empty}}, []bool{false}, []int32{0}, false, s2.EmptyRect())
+		case 2:
+			return foreignLossless(nil, nil, nil, false, s2.EmptyRect())
+		default:
+			sp := gen.StarLoop(r, gen.RandCenter(r), 3+r.Intn(6), 0.1, 0.2)
+			return foreignLossless([][]s2.Point{sp.Vs}, []bool{s2.LoopFromPoints(sp.Vs).ContainsOrigin()}, []int32{0}, false, s2.LoopFromPoints(sp.Vs).RectBound())
+		}
+	}
+	if (kind == "PolygonLossless" || kind == "PolygonCompressed") && r.Intn(8) == 0 {
+		p := manyLoopPolygon(r, kind == "PolygonCompressed")
+		return enc(func(b *bytes.Buffer) error { return p.Encode(b) })
+	}
 	switch kind {
 	case "Point":
 		return enc(func(b *bytes.Buffer) error { return pt.Encode(b) })
@@ -201,7 +270,7 @@ func mutate(r *rand.Rand, kind string, valid []byte) mutated {
 			}
 		case "PolygonLossless":
 			if len(b) >= 7 {
-				if r.Intn(2) == 0 || len(b) < 12 {
+				if r.Intn(2) == 0 || len(b) < 12 || binary.LittleEndian.Uint32(b[3:]) == 0 { // (no first loop in a zero-loop polygon)
 					binary.LittleEndian.PutUint32(b[3:], uint32(v))
 					return mutated{b: b, overLimit: uint64(uint32(v)) > maxLoops, how: fmt.Sprintf("nloops=%d", uint32(v))}
 				}
@@ -297,6 +366,17 @@ func oneInput(c *mon.Case) {
 	if mu.overLimit {
 		c.Count("inputs.over_limit_count", 1)
 	}
+	// one input in five is decoded into a receiver that already holds another, valid value of the same type
+	var primer []byte
+	if kind != "Point" && kind != "Cap" && kind != "Rect" && kind != "CellID" && kind != "Cell" && c.R.Intn(5) == 0 {
+		if (kind == "PolygonLossless" || kind == "PolygonCompressed") && c.R.Intn(2) == 0 {
+			p := manyLoopPolygon(c.R, c.R.Intn(2) == 0)
+			primer = enc(func(b *bytes.Buffer) error { return p.Encode(b) })
+		} else {
+			primer = validEncoding(c.R, kind)
+		}
+		c.Count("inputs.decoded_into_used_receiver", 1)
+	}
 	var err error
 	var use func()
 	a0 := allocated()
@@ -308,7 +388,9 @@ func oneInput(c *mon.Case) {
 				err = fmt.Errorf("panicked")
 			}
 		}()
-		err, use = decode(kind, in, c.R)
+		err, use = decode(kind, in, c.R, primer, func(what string) {
+			c.Violation(kind+"/reused-receiver/differs-from-fresh-decode/wrong-answer", "a value decoded into a receiver that already held another value differs from the same bytes decoded into a fresh receiver: "+what, det())
+		})
 	}()
 	alloc := allocated() - a0
 	c.Max("max_bytes_allocated_by_one_Decode", float64(alloc))
@@ -351,7 +433,7 @@ func probes(r *rand.Rand) []s2.Point {
 }
 
 // decode runs the decoder and returns a function exercising the value.
-func decode(kind string, in []byte, r *rand.Rand) (error, func()) {
+func decode(kind string, in []byte, r *rand.Rand, primer []byte, differs func(what string)) (error, func()) {
 	rd := bytes.NewReader(in)
 	var sink bytes.Buffer
 	cellProbe := s2.CellFromCellID(gen.RandCellID(r, r.Intn(31)))
@@ -398,7 +480,16 @@ func decode(kind string, in []byte, r *rand.Rand) (error, func()) {
 		}
 	case "CellUnion":
 		var v s2.CellUnion
+		if primer != nil {
+			v.Decode(bytes.NewReader(primer))
+		}
 		err := v.Decode(rd)
+		if primer != nil && err == nil {
+			var f s2.CellUnion
+			if f.Decode(bytes.NewReader(in)) != nil || len(f) != len(v) {
+				differs(fmt.Sprintf("%d cells vs %d", len(v), len(f)))
+			}
+		}
 		return err, func() {
 			v.Encode(&sink)
 			_ = v.IsValid()
@@ -417,7 +508,16 @@ func decode(kind string, in []byte, r *rand.Rand) (error, func()) {
 		}
 	case "Polyline":
 		var v s2.Polyline
+		if primer != nil {
+			v.Decode(bytes.NewReader(primer))
+		}
 		err := v.Decode(rd)
+		if primer != nil && err == nil {
+			var f s2.Polyline
+			if f.Decode(bytes.NewReader(in)) != nil || len(f) != len(v) {
+				differs(fmt.Sprintf("%d vertices vs %d", len(v), len(f)))
+			}
+		}
 		return err, func() {
 			v.Encode(&sink)
 			for i := 0; i < v.NumEdges() && i < 1000; i++ {
@@ -430,7 +530,23 @@ func decode(kind string, in []byte, r *rand.Rand) (error, func()) {
 		}
 	case "Loop":
 		var v s2.Loop
+		if primer != nil {
+			v.Decode(bytes.NewReader(primer))
+		}
 		err := v.Decode(rd)
+		if primer != nil && err == nil {
+			var f s2.Loop
+			if f.Decode(bytes.NewReader(in)) != nil || f.NumVertices() != v.NumVertices() || f.ContainsOrigin() != v.ContainsOrigin() {
+				differs(fmt.Sprintf("%d vertices vs %d", v.NumVertices(), f.NumVertices()))
+			} else {
+				for _, p := range probes(r) {
+					if f.ContainsPoint(p) != v.ContainsPoint(p) {
+						differs("ContainsPoint differs")
+						break
+					}
+				}
+			}
+		}
 		return err, func() {
 			v.Encode(&sink)
 			for i := 0; i < v.NumEdges() && i < 1000; i++ {
@@ -447,8 +563,30 @@ func decode(kind string, in []byte, r *rand.Rand) (error, func()) {
 		}
 	}
 	var v s2.Polygon
+	if primer != nil {
+		v.Decode(bytes.NewReader(primer))
+	}
 	err := v.Decode(rd)
 	return err, func() {
+		if primer != nil {
+			var f s2.Polygon
+			if f.Decode(bytes.NewReader(in)) != nil || f.NumLoops() != v.NumLoops() || f.NumEdges() != v.NumEdges() {
+				differs(fmt.Sprintf("%d loops %d edges vs %d loops %d edges", v.NumLoops(), v.NumEdges(), f.NumLoops(), f.NumEdges()))
+			} else {
+				for i := 0; i < v.NumEdges() && i < 1000; i++ {
+					if v.Edge(i) != f.Edge(i) || v.ChainPosition(i) != f.ChainPosition(i) {
+						differs(fmt.Sprintf("edge %d differs", i))
+						break
+					}
+				}
+				for _, p := range probes(r) {
+					if f.ContainsPoint(p) != v.ContainsPoint(p) {
+						differs("ContainsPoint differs")
+						break
+					}
+				}
+			}
+		}
 		v.Encode(&sink)
 		for i := 0; i < v.NumEdges() && i < 1000; i++ {
 			_ = v.Edge(i)
